@@ -16,11 +16,13 @@ func init() { core.Register(prop{}) }
 func (prop) ID() string       { return "C02" }
 func (prop) New() core.Runner { return fc.New("C02") }
 func (prop) Rule() string {
-	return "cases: `new` (builder.NewPipelineBuilder, real constants C=262144 B=8192), `new pipe` (same through file.ChunkPipe + builder.FeedPipeline) or " +
+	return "cases: `new` (builder.NewPipelineBuilder, real constants C=262144 B=8192), `new pipe` (same through file.ChunkPipe + builder.FeedPipeline; the model side runs Aurora.ChunkPipe — buffer, cursor, Write, Close — in front of the pipeline model and both sides report the number and a chained digest of the pieces that left the pipe; dedicated `pp*` / `fix-pipe-*` cases write 2..6 pieces drawn from short (1..C-1, stay buffered) and long (C..2.5C) lengths in the orders short-long, long-short-long, short-short-long-short, long-long-short, short-long-short-long, random, with zero-length writes interleaved, or one source in C+1 / C-1 / C / 1.5C / 2C+1 / random pieces behind a short first write, every write with its own non-periodic source; direct oracle: the bytes read out of the pipe are the bytes written, in order, and only the last piece is shorter than C) or " +
+		"`new feed <shape>` (the written bytes reach builder.FeedPipeline at `sum` through a reader of that shape: bytes.Reader, iotest.DataErrReader = last bytes TOGETHER with io.EOF in 1 KiB pieces, chunk<k> = k-byte pieces with io.EOF on the last, OneByteReader, HalfReader, HalfReader over DataErrReader; every Read result is annotated, the model checks it is admissible and runs Aurora.FeedPipeline.writes; oracle feedpipeline-bytes-dropped: the bytes handed to the pipeline are the bytes the reader delivered), " +
+		"`parup reps src…` (concurrent uploads sharing the process-wide BMT pool: uploader 1 stores a 2..4-chunk content reps = 8..14 times while 12 uploaders keep storing a 50-byte content and one a <= 1-chunk content; every reference must equal the independent format implementation's — par-ref-not-format-hash — and the sequential model's; 40 s watchdog par-hang; these cases run last), or " +
 		"`new small c b` (the same feeder/bmt/store/hashtrie writers assembled with chunk size c in {32,64,96,100} and branching b in {2,3,4,5,8}: trees up to the 8-level limit, " +
 		"chunk counts b^k-1, b^k, b^k+1, and 2^7+1 chunks for the trie-full error); content lengths 0,1,31..33,63..65,127..129,4095..4097, C-1,C,C+1,2C-1,2C,2C+1,3C, random; " +
 		"segmentations: one write, fixed pieces 1/7/31/32/33/1000/4096/C/C+1/3C/random, random cuts with zero-length writes, cuts next to chunk boundaries; then `sum`. " +
-		"Model side also evaluates the independent format specification (Spec.root) and runs the literal buffer-and-cursor model of the hash-trie writer next to the list model (BUF-LIST-MISMATCH if they differ); in `new small` mode the answers carry the writer's cursors[1..8], full flag and a digest of buffer[0:cursors[1]] after every ChainWrite and after Sum (real writer: verif hook hashtrie.VerifPeek; model: Aurora.HashTrieBuf), incl. fixed cases with the real constants (`new small 262144 8192`), B=128 and B=16. Go oracle: independent Go implementation of the format (own BMT over sha3), same bytes in one write give the same reference, every Put is cac.Valid. " +
+		"Model side also evaluates the independent format specification (Spec.root) and runs the literal buffer-and-cursor model of the hash-trie writer next to the list model (BUF-LIST-MISMATCH if they differ); in `new small` mode the answers carry the writer's cursors[1..8], full flag and a digest of buffer[0:cursors[1]] after every ChainWrite and after Sum (real writer: verif hook hashtrie.VerifPeek; model: Aurora.HashTrieBuf), incl. fixed cases with the real constants (`new small 262144 8192`), B=128 and B=16. Go oracle: independent Go implementation of the format (own BMT over sha3), same bytes in one write give the same reference, every Put is cac.Valid; pipe mode: chunkpipe-bytes-reordered / -lost-or-added / chunkpipe-short-piece-not-last. " +
 		"Non-trivial: summed content of >= 2 chunks or written in >= 2 writes; distinct by op-list hash. Real-constant multi-chunk cases are limited in number (Lean-side hashing cost)."
 }
 
@@ -33,9 +35,9 @@ func pow(b, k int) int {
 }
 
 func (prop) Gen(r *core.Rand, tier string) []core.Case {
-	nSmall, nMed, nBig, nTiny := 110, 10, 7, 90
+	nSmall, nMed, nBig, nTiny, nPipe, nFeed, nPar := 110, 10, 7, 90, 16, 16, 0
 	if tier == "thorough" {
-		nSmall, nMed, nBig, nTiny = 600, 60, 20, 700
+		nSmall, nMed, nBig, nTiny, nPipe, nFeed, nPar = 600, 60, 20, 700, 150, 150, 6
 	}
 	C := fc.C
 	cs := []core.Case{
@@ -55,6 +57,45 @@ func (prop) Gen(r *core.Rand, tier string) []core.Case {
 			"new small 32 2", "writeseg g:6:96 32", "sum", "new small 32 2", "writeseg g:6:4064 32", "sum"}},
 		{ID: "fix-carry", NT: true, Ops: []string{"new small 64 4", "writeseg g:9:1088 64", "sum", "new small 64 4", "write g:9:1088", "sum", "new small 64 4", "writeseg g:9:1025 7", "sum"}},
 	}
+	// file.ChunkPipe (seeded change C02-3: whole chunks of a write overtook the buffered bytes of an earlier
+	// short write): a short write then >= one chunk, chunk-short-chunk, a write spanning several chunks
+	// after a partial buffer, a write that leaves exactly one chunk buffered, writeseg pieces of C+1 / C-1.
+	// Every write has its own source so that no reordering maps the content onto itself.
+	pipeCase := func(id string, lens ...int) {
+		c := core.Case{ID: id, NT: true, Ops: []string{"new pipe"}}
+		for i, n := range lens {
+			if n == 0 {
+				c.Ops = append(c.Ops, "write h:-")
+			} else {
+				c.Ops = append(c.Ops, fmt.Sprintf("write g:%d:%d", 7000+31*len(cs)+i, n))
+			}
+		}
+		c.Ops = append(c.Ops, "sum")
+		cs = append(cs, c)
+	}
+	pipeCase("fix-pipe-short-then-chunk", 100, C)
+	pipeCase("fix-pipe-chunk-short-chunk", C, 2, C)
+	pipeCase("fix-pipe-short-then-chunks", 10, 2*C+5, 7)
+	pipeCase("fix-pipe-chunk-left-buffered", 2*C)
+	pipeCase("fix-pipe-chunk-left-buffered-then-byte", 2*C, 1)
+	pipeCase("fix-pipe-fill-to-boundary", C-1, 1, C, 0, 1)
+	pipeCase("fix-pipe-halves-then-two-chunks", C/2, C/2, C/2, 2*C)
+	cs = append(cs, core.Case{ID: "fix-pipe-writeseg", NT: true, Ops: []string{"new pipe", fmt.Sprintf("writeseg g:81:%d %d", 3*C, C+1), "sum",
+		"new pipe", "write h:aabbcc", fmt.Sprintf("writeseg g:82:%d %d", 2*C+9, C), "sum", "new pipe", fmt.Sprintf("writeseg g:83:%d %d", 2*C, C-1), "sum"}})
+	// builder.FeedPipeline with a reader that reports io.EOF together with its last bytes (C02-5)
+	cs = append(cs, core.Case{ID: "fix-feed-data-with-eof", NT: true, Ops: []string{
+		"new feed dataerr", "write g:91:5000", "sum",
+		"new feed chunk4096", "write g:92:10000", "sum",
+		"new feed dataerr", "sum",
+		"new feed dataerr", "write h:ab", "sum",
+		fmt.Sprintf("new feed chunk%d", C), fmt.Sprintf("write g:93:%d", 2*C+5), "sum",
+		fmt.Sprintf("new feed chunk%d", C), fmt.Sprintf("write g:94:%d", 2*C), "sum",
+		"new feed dataerr", fmt.Sprintf("write g:95:%d", C+100), "sum",
+		"new feed plain", "write g:91:5000", "sum",
+		"new feed one", "write g:96:700", "sum",
+		"new feed half", fmt.Sprintf("write g:97:%d", C+3), "sum",
+		"new feed halfdataerr", "write g:98:4097", "sum",
+		"new feed nosuchshape", "new feed chunk0"}})
 	add := func(id string, total int, head string) {
 		c := core.Case{ID: id, Ops: []string{head}}
 		w := fc.Writes(r, total)
@@ -79,6 +120,88 @@ func (prop) Gen(r *core.Rand, tier string) []core.Case {
 			head = "new pipe"
 		}
 		add(fmt.Sprintf("b%d", i), fc.Length(r, 2, 4*C), head)
+	}
+	// file.ChunkPipe with rich segmentations: 2..6 writes drawn from short (stay in the buffer) and long
+	// (>= one chunk) lengths in the orders short-long, long-short-long, short-short-long, long-long, …
+	// (total <= ~5 chunks), or one source cut into C+1 / C-1 / C / C+C/2 / 2C+1 / random pieces behind a short first write
+	for i := 0; i < nPipe; i++ {
+		c := core.Case{ID: fmt.Sprintf("pp%d", i), NT: true, Ops: []string{"new pipe"}}
+		short := func() int {
+			return r.Pick([]int{1, 2, 7, 10, 100, 4096, C / 2, C - 1, C - 7, r.Range(1, C-1), r.Range(1, 300)})
+		}
+		long := func() int {
+			return r.Pick([]int{C, C, C + 1, C + 5, 2*C - 1, 2 * C, 2*C + 1, 2*C + 5, r.Range(C, 2*C+C/2)})
+		}
+		wr := func(n int) {
+			if n == 0 {
+				c.Ops = append(c.Ops, "write h:-")
+			} else {
+				c.Ops = append(c.Ops, "write "+fc.Src(r, n, true))
+			}
+		}
+		if r.Chance(25) {
+			if r.Chance(70) {
+				wr(short())
+			}
+			k := r.Pick([]int{C + 1, C - 1, C, C + C/2, 2*C + 1, r.Range(C/2, 2*C)})
+			c.Ops = append(c.Ops, fmt.Sprintf("writeseg g:%d:%d %d", r.Intn(100000), r.Range(2*C, 4*C), k))
+		} else {
+			pat := r.Pick([]int{0, 0, 1, 2, 3, 4, 5})
+			var seq []int
+			switch pat {
+			case 0:
+				seq = []int{short(), long()}
+			case 1:
+				seq = []int{long(), short(), long()}
+			case 2:
+				seq = []int{short(), short(), long(), short()}
+			case 3:
+				seq = []int{long(), long(), short()}
+			case 4:
+				seq = []int{short(), long(), short(), long()}
+			default:
+				for j, n := 0, r.Range(2, 6); j < n; j++ {
+					if r.Chance(45) {
+						seq = append(seq, long())
+					} else {
+						seq = append(seq, short())
+					}
+				}
+			}
+			tot := 0
+			for _, n := range seq {
+				if tot+n > 5*C {
+					n = short()
+				}
+				tot += n
+				wr(n)
+				if r.Chance(10) {
+					wr(0)
+				}
+			}
+		}
+		c.Ops = append(c.Ops, "sum")
+		cs = append(cs, c)
+	}
+	// builder.FeedPipeline over readers of different shapes (seeded change C02-5: the bytes a reader returns
+	// together with io.EOF were dropped): plain, data-with-EOF (iotest.DataErrReader, 1 KiB pieces; chunk<k>: k-byte
+	// pieces, the last one with io.EOF), one-byte, half, half over data-with-EOF
+	for i := 0; i < nFeed; i++ {
+		shape := []string{"dataerr", "dataerr", "plain", "one", "half", "halfdataerr", "chunk1", "chunk4096", "chunk1000",
+			fmt.Sprintf("chunk%d", C), fmt.Sprintf("chunk%d", C-1), fmt.Sprintf("chunk%d", 2*C)}[r.Intn(12)]
+		total := fc.Length(r, 0, 0)
+		switch {
+		case shape == "one" || shape == "chunk1":
+			if total > 3000 {
+				total = r.Range(1, 3000)
+			}
+		case i%4 == 0:
+			total = fc.Length(r, 2, 3*C)
+		case i%4 == 1:
+			total = fc.Length(r, 1, 0)
+		}
+		add(fmt.Sprintf("fd%d", i), total, "new feed "+shape)
+		cs[len(cs)-1].NT = true
 	}
 	// small-parameter instances: deep trees
 	for i := 0; i < nTiny; i++ {
@@ -129,6 +252,26 @@ func (prop) Gen(r *core.Rand, tier string) []core.Case {
 		}
 		cse.Ops = append(cse.Ops, "sum")
 		cs = append(cs, cse)
+	}
+	// concurrent uploads (seeded change C02-4: the pipeline's bmt writer returned its hasher to the process-wide
+	// pool before Hash had finished): one uploader stores a 4-chunk content several times while twelve others keep
+	// storing a 50-byte content (single-section chunks cycle through the pool quickly); every reference must be the
+	// sequential one.  These cases come LAST: a code change that wedges a pooled BMT tree must not take the
+	// remaining cases of the run with it (watchdog 40 s, clause par-hang).
+	small := "h:" + core.Hex(core.GenBytes(4242, 50, 0))
+	par := func(id string, reps int, big ...string) {
+		ops := fmt.Sprintf("parup %d %s", reps, big[0])
+		for i := 0; i < 12; i++ {
+			ops += " " + small
+		}
+		for _, b := range big[1:] {
+			ops += " " + b
+		}
+		cs = append(cs, core.Case{ID: id, NT: true, Ops: []string{ops}})
+	}
+	par("fix-parallel-uploads", 12, fmt.Sprintf("g:4243:%d", 3*C+12345), "g:4244:137000")
+	for i := 0; i < nPar; i++ {
+		par(fmt.Sprintf("par%d", i), r.Range(8, 14), fmt.Sprintf("g:%d:%d", r.Intn(100000), r.Range(2*C, 4*C)), fmt.Sprintf("g:%d:%d", r.Intn(100000), r.Range(1, C+5)))
 	}
 	return cs
 }
